@@ -348,6 +348,13 @@ func runC02(c *eng.Ctx) {
 			core.MkReg("OutS_S1S5", godi.Scoped),
 			core.MkReg("PosA_2_3", godi.Scoped),
 		}}, []core.Op{{Kind: core.OpGet, Type: "K0"}, {Kind: core.OpGet, Type: "K1"}, {Kind: core.OpGet, Type: "K2"}, {Kind: core.OpGet, Type: "S1"}, {Kind: core.OpGet, Type: "S5"}}},
+		// multi-output constructors whose FIRST output is a group member (result-object field with a
+		// group tag; multi-return registered with Group): the outputs still come from one invocation
+		{"multi-output-first-output-grouped", &core.Spec{Regs: []core.Reg{
+			core.MkReg("OutG_K0K1", godi.Scoped),
+			core.MkReg("MR_S0S4", godi.Scoped, core.WithGroup("h")),
+			core.MkReg("Leaf_K0_a", godi.Scoped, core.WithGroup("g")),
+		}}, []core.Op{{Kind: core.OpGetGroup, Type: "K0", Group: "g"}, {Kind: core.OpGet, Type: "K1"}, {Kind: core.OpGetGroup, Type: "S0", Group: "h"}, {Kind: core.OpGetGroup, Type: "S4", Group: "h"}, {Kind: core.OpGet, Type: "K1", Generic: true}}},
 	}
 	// drop fixtures the model does not consider buildable (keeps the fixture list honest)
 	var fx []int
